@@ -290,6 +290,16 @@ class Exec:
             with m:
                 m.remove_reactions([R])
                 R.bounds = (fl(op["lb"]), fl(op["ub"]))
+        elif k == "lifecycle_inf":
+            # outside a context: a reaction gets an infinite bound on one or both sides, the model is copied / pickled, and the solver interface of
+            # the result is switched (bounds that are "no bound" in one interface must not become numbers in the other)
+            R = self.rxn(op["r"])
+            R.bounds = (fl(op["lb"]), fl(op["ub"]))
+            how = op["how"]
+            new = m.copy() if how == "copy" else (copy.deepcopy(m) if how == "deepcopy" else pickle.loads(pickle.dumps(m)))
+            self._replace(new)
+            cur = "glpk_exact" if "exact" in type(new.solver).__module__ else "glpk"
+            new.solver = "glpk" if cur == "glpk_exact" else "glpk_exact"
         elif k == "detached_rule":
             R = self.removed.get(op["r"])
             if R is None or R._model is not None:
@@ -386,7 +396,7 @@ PROFILES = [
     ["add_mets"] * 5 + ["sub_mets"] * 3 + ["imul", "set_bounds", "rm_mets", "add_model_mets", "set_obj"] + CTX,             # stoichiometry
     ["set_rule"] * 4 + ["ko_gene"] * 2 + ["ko_genes", "remove_genes", "remove_genes", "rename_genes", "rename_genes", "ctx_rename_one", "ctx_rename_one", "rm_rxns", "add_rxns"] + CTX,  # genes and rules
     ["add_rxns"] * 3 + ["rm_rxns"] * 3 + ["readd_rxn"] * 2 + ["rename_rxn"] * 2 + ["rename_met", "ctx_add_rename", "ctx_add_rename", "add_boundary", "rm_mets", "add_model_mets", "set_obj", "obj_coef", "set_obj"] + CTX,  # structure and objective
-    ["copy", "copy", "deepcopy", "pickle", "switch_solver", "set_bounds", "set_bounds", "ko_rxn", "ko_gene", "set_ub", "set_lb", "add_rxns", "rm_rxns", "obj_coef", "set_dir", "imul"] + CTX,   # life cycle: copies, pickles, solver switches between edits
+    ["copy", "copy", "deepcopy", "pickle", "switch_solver", "lifecycle_inf", "lifecycle_inf", "lifecycle_inf", "set_bounds", "set_bounds", "ko_rxn", "ko_gene", "set_ub", "set_lb", "add_rxns", "rm_rxns", "obj_coef", "set_dir", "imul"] + CTX,   # life cycle: copies, pickles, solver switches between edits
     ["rm_rxns"] * 3 + ["ctx_rm_edit"] * 3 + ["detached_rule"] * 3 + ["detached_bounds"] * 2 + ["readd_rxn"] * 3 + ["build_str"] * 3 + ["add_rxns_badid"] * 2 + ["set_rule", "ko_gene", "add_rxns"] + CTX,   # objects outside the model, equations, refused identifiers
 ]
 
@@ -540,6 +550,11 @@ def gen_op(rng, ex: Exec, kinds=None, p_bad=0.12):
         if not gids:
             return {"op": "slim_optimize"}
         return {"op": k, "g": rng.choice(gids), "new": rng.choice([g for g in GIDS + ["gX"] if g not in gids] or ["gX"])}
+    if k == "lifecycle_inf":
+        if ex.depth != 0 or not rids:
+            return {"op": "slim_optimize"}
+        lb, ub = rng.choice([("-inf", "inf"), ("-inf", "inf"), ("-inf", "5"), ("-5/2", "inf"), ("-inf", "-1"), ("2", "inf"), ("0", "inf")])
+        return {"op": k, "r": some_r(), "lb": lb, "ub": ub, "how": rng.choice(["copy", "deepcopy", "pickle"])}
     if k == "ctx_rm_edit":
         lb, ub = gen_bounds(rng)
         return {"op": k, "r": some_r(), "lb": lb, "ub": ub}
